@@ -10,7 +10,7 @@ from common import driver, proof_stage
 import subgen
 from c15 import run_calls, stats
 
-MODULES = ["CobyqaVerif.Props.C16", "CobyqaVerif.Props.C15Loop", "CobyqaVerif.Props.C15Improve", "CobyqaVerif.Props.C16Cauchy", "CobyqaVerif.Props.C16CauchyDir", "CobyqaVerif.Props.C16Spider", "CobyqaVerif.Props.C16Ntcg"]
+MODULES = ["CobyqaVerif.Props.C16", "CobyqaVerif.Props.C15Loop", "CobyqaVerif.Props.C15Improve", "CobyqaVerif.Props.C16Cauchy", "CobyqaVerif.Props.C16CauchyDir", "CobyqaVerif.Props.C16Spider", "CobyqaVerif.Props.C16Ntcg", "CobyqaVerif.Props.C16NtcgImprove"]
 LEVEL = "proof"
 OWN = ("model-increased", "violation-increased", "magnitude-decreased")
 EPS = subgen.EPS
@@ -216,10 +216,11 @@ def cauchy_full_correspondence(rng, n_gen):
 
 
 def ntcg_correspondence(rng, n_gen, nmax=3):
-    """Tie of lean/CobyqaVerif/Alg/Ntcg.lean (the loop the theorems of Props/C16Ntcg.lean are about) to the code: the model
-    is run in exact rational arithmetic (DriverAlg `ntcg`, projection by exact Gram-Schmidt in the space of variables and
-    slacks, checked) on the inputs given to the real normal_byrd_omojokun with improve_tcg=False; the two steps must agree
-    to 1e-6 relative.  Inputs with an all-zero inequality row are left out (see c15.ctcg_correspondence)."""
+    """Tie of lean/CobyqaVerif/Alg/Ntcg.lean and Alg/NtcgImprove.lean (`nfull`, the functions the theorems of
+    Props/C16Ntcg.lean and Props/C16NtcgImprove.lean are about) to the code: the model is run in exact rational arithmetic
+    (DriverAlg `ntcg`, projection by exact Gram-Schmidt in the space of variables and slacks, checked) on the inputs given
+    to the real normal_byrd_omojokun, with improve_tcg as the case says (both values occur); the two steps must agree to
+    1e-6 relative.  Inputs with an all-zero inequality row are left out (see c15.ctcg_correspondence)."""
     import warnings
     import exact
     import cobyqa.subsolvers as S
@@ -237,27 +238,28 @@ def ntcg_correspondence(rng, n_gen, nmax=3):
     def line(c):
         n = c["n"]
         xl, xu = np.minimum(c["xl"], 0.0), np.maximum(c["xu"], 0.0)
-        return (f"ntcg {n} {len(c['bub'])} {c['aeq'].shape[0]} {4 * (n + len(c['bub'])) + 12} | {ol(xl)} ; {ol(xu)} ; {rl(c['aub'])} ; {rl(c['bub'])} ; "
+        return (f"ntcg {n} {len(c['bub'])} {c['aeq'].shape[0]} {4 * (n + len(c['bub'])) + 12} {n + 2} {int(bool(c['improve_tcg']))} | {ol(xl)} ; {ol(xu)} ; {rl(c['aub'])} ; {rl(c['bub'])} ; "
                 f"{rl(c['aeq'])} ; {rl(c['beq'])} ; {exact.rs(Fr(float(c['delta'])))}")
     ans = _stream_driver([line(c) for c in cases], 12)
-    agree, skipped, mism = 0, 0, []
+    agree, skipped, mism, second = 0, 0, [], 0
     for c, a in zip(cases, ans):
         if a is None:
             skipped += 1
             continue
         with warnings.catch_warnings(), np.errstate(all="ignore"):
             warnings.simplefilter("ignore")
-            s = S.normal_byrd_omojokun(c["aub"].copy(), c["bub"].copy(), c["aeq"].copy(), c["beq"].copy(), c["xl"].copy(), c["xu"].copy(), c["delta"], False, improve_tcg=False)
+            s = S.normal_byrd_omojokun(c["aub"].copy(), c["bub"].copy(), c["aeq"].copy(), c["beq"].copy(), c["xl"].copy(), c["xu"].copy(), c["delta"], False, improve_tcg=bool(c["improve_tcg"]))
         if not a.startswith("ok"):
             mism.append((c, "driver answered " + a[:40]))
             continue
+        second += int(a.startswith("ok1") and bool(c["improve_tcg"]))
         mdl = np.array([float(Fr(t)) for t in a.split()[1:]])
         sc = max(float(np.linalg.norm(s)), float(np.linalg.norm(mdl)), 1e-300)
         if float(np.linalg.norm(mdl - s)) <= 1e-6 * sc:
             agree += 1
         else:
-            mism.append((c, f"exact model step {mdl.tolist()} vs implementation {np.asarray(s).tolist()}"))
-    return {"cases": len(cases), "agree": agree, "skipped_too_expensive": skipped, "mismatches": len(mism),
+            mism.append((c, f"exact model step {mdl.tolist()} vs implementation {np.asarray(s).tolist()} (improve_tcg={c['improve_tcg']})"))
+    return {"cases": len(cases), "agree": agree, "skipped_too_expensive": skipped, "mismatches": len(mism), "entered_the_second_phase": second,
             "origin_infeasible": sum(1 for c in cases if np.any(c["bub"] < 0) or np.any(c["beq"] != 0)), "left_out_because_of_an_all_zero_row": n_zero}, mism
 
 
